@@ -66,6 +66,13 @@ def _worker(args):
             continue
         for v in vs:
             viols.append((i, v.spec, v.to_json()))
+        le = getattr(stats, "last_exec", None)
+        if le is not None:
+            for lab in (le[0].get("world") or {}).get("labware", []):
+                if lab.get("ids"):
+                    stats.probes["plate_with_more_than_26_rows_offered_by_library"] += 1
+                elif lab.get("tall_fallback"):
+                    stats.probes["plate_with_more_than_26_rows_not_offered_fell_back_to_26"] += 1
         # continuous replay-fidelity probe: 1 run in 25 is re-executed from its recorded concrete form
         if i % 25 == 0 and getattr(stats, "last_exec", None) is not None:
             spec, digest = stats.last_exec
